@@ -67,3 +67,6 @@ Print Assumptions C06_dropped_is_zero.
 (* ---- source pins: the functions whose hand-written model carries the theorems above are still, textually (after
    ast normalisation), the functions the model was validated against; an edit breaks Bridge/Pins_C06.v ---- *)
 From KV Require Bridge.Pins_C06.
+
+(* the polynomial class the symbolic generators run on: its translated kernels and pinned methods (see Props/C17.v) *)
+From KV Require Bridge.Poly Bridge.Pins_C17.
